@@ -15,13 +15,13 @@ type forExpander struct {
 	atEOF     bool
 
 	// for state fields
-	forCountLabel        string
-	forLineLabels        []string
-	forLineLabelsToWrite []string
-	forCount             int
-	forIndex             int
-	forContent           []token
-	forDepth             int
+	forCountLabel   string
+	forLineLabels   []string
+	forLineLabelsAt int
+	forCount        int
+	forIndex        int
+	forContent      []token
+	forDepth        int
 
 	symbols map[string][]token
 
@@ -247,9 +247,9 @@ func forFor(f *forExpander) forStateFn {
 
 	// labels in front of the counter are ordinary labels of the first
 	// instruction the block emits: they keep their names, so that they can
-	// be referenced from inside and from outside the block
-	f.forLineLabelsToWrite = make([]string, len(f.forLineLabels))
-	copy(f.forLineLabelsToWrite, f.forLineLabels)
+	// be referenced from inside and from outside the block; forInnerLabels
+	// finds the line of the body they go in front of
+	f.forLineLabelsAt = -1
 
 	f.forCount = val
 	f.forIndex = 0 // should not be necessary
@@ -279,6 +279,8 @@ func forInnerLabels(f *forExpander) forStateFn {
 		if f.nextToken.IsPseudoOp() {
 			opLower := strings.ToLower(f.nextToken.val)
 			if opLower == "for" {
+				// a nested block comes first: the labels become its labels
+				f.markLineLabels()
 				f.forDepth += 1
 				return forInnerEmitLabels
 			} else if opLower == "rof" {
@@ -292,12 +294,7 @@ func forInnerLabels(f *forExpander) forStateFn {
 				return forInnerEmitLabels
 			}
 		} else if f.nextToken.IsOp() {
-			if f.forLineLabelsToWrite != nil {
-				for _, label := range f.forLineLabelsToWrite {
-					f.tokens <- token{tokText, label}
-				}
-				f.forLineLabelsToWrite = nil
-			}
+			f.markLineLabels()
 			return forInnerEmitLabels
 		} else {
 			f.labelBuf = append(f.labelBuf, f.nextToken.val)
@@ -311,6 +308,15 @@ func forInnerLabels(f *forExpander) forStateFn {
 	default:
 		// not expecting legal input here, but we will let the parser deal with it
 		return forInnerEmitLabels
+	}
+}
+
+// markLineLabels remembers the first line of the body itself (not of a nested
+// block) that is an instruction or the header of a nested block: the labels in
+// front of the counter are written in front of it, not in front of EQU lines
+func (f *forExpander) markLineLabels() {
+	if f.forDepth == 0 && f.forLineLabelsAt < 0 {
+		f.forLineLabelsAt = len(f.forContent)
 	}
 }
 
@@ -352,8 +358,20 @@ func forRof(f *forExpander) forStateFn {
 		f.next()
 	}
 
+	writeLineLabels := func() {
+		for _, label := range f.forLineLabels {
+			f.tokens <- token{tokText, label}
+		}
+	}
+	if f.forCount < 1 && f.forLineLabelsAt >= 0 {
+		// nothing is emitted: the labels fall onto what follows the block
+		writeLineLabels()
+	}
 	for i := 1; i <= f.forCount; i++ {
-		for _, tok := range f.forContent {
+		for j, tok := range f.forContent {
+			if i == 1 && j == f.forLineLabelsAt {
+				writeLineLabels()
+			}
 			if tok.typ == tokText {
 				if tok.val == f.forCountLabel {
 					f.tokens <- token{tokNumber, fmt.Sprintf("%d", i)}
